@@ -157,13 +157,22 @@ def build(params, symbolic):
         if counter["n"] > (n + 2) * (1 if mode == "lr" else 8):
             return "recovery was invoked %d times on an input of length %d" % (counter["n"], n)
         lex, ey = refcfg.analyse(spec, w, n)
+        # "sentence": for GLR the reference decides; a conflict-resolved LR parser accepts a subset of the language, so
+        # for LR a sentence is what the same parser accepts without recovery
+        is_sentence = ey.accepted
+        if mode == "lr":
+            try:
+                plain.parse(w)
+                is_sentence = True
+            except parglare.SyntaxError:
+                is_sentence = False
         if raised is not None:
-            if ey.accepted:
+            if is_sentence:
                 return "SyntaxError on a sentence with recovery enabled"
             bump(stats, "raised")
             return True
         errors = list(parser.errors)
-        if ey.accepted and strat == "default":
+        if is_sentence and strat == "default":
             if errors:
                 return "errors recorded on a sentence"
             r0 = plain.parse(w)
@@ -178,7 +187,7 @@ def build(params, symbolic):
                     pass
             bump(stats, "sentence")
             return True
-        if not ey.accepted and not errors:
+        if not is_sentence and not ey.accepted and not errors:
             return "non-sentence accepted without any recorded error"
         # spans
         prev_end = 0
